@@ -10,6 +10,7 @@ import (
 	"bytes"
 	"fmt"
 	"net/http"
+	"strings"
 	"sync"
 	"testing"
 	"time"
@@ -28,11 +29,14 @@ type HitReval struct {
 	Gets       int    `json:"gets"`
 	LifetimeMs int    `json:"lifetime_ms"`
 	Len        int    `json:"len"`
-	Raw304     string `json:"raw_304,omitempty"` // "" | len0 | typed: the origin's 304s carry a Content-Length (and Content-Type) of their own
+	// ViaLines: the origin's answer carries this many Via lines (and as many Cache-Status lines) of upstream
+	// intermediaries; the proxy appends its own entry for every answer it builds from the stored header block
+	ViaLines int    `json:"via_lines,omitempty"`
+	Raw304   string `json:"raw_304,omitempty"` // "" | len0 | typed: the origin's 304s carry a Content-Length (and Content-Type) of their own
 }
 
 var subHitReval = ev.Register("hit-vs-revalidate",
-	"4-12 clients issue 20-80 GETs each for one resource whose lifetime is 1-5 ms (so hits, expiries and 304 revalidations of the same entry interleave all the time; the origin never changes the resource; its 304s are net/http's or hand-written ones carrying a Content-Length/Content-Type of their own); oracle: every answer is a 200 with the complete body, the resource's ETag and media type, the origin is only ever asked conditionally after the first fetch; non-trivial = both hits and revalidations occurred; distinct by case",
+	"4-12 clients issue 20-80 GETs each for one resource whose lifetime is 1-5 ms (so hits, expiries and 304 revalidations of the same entry interleave all the time; the origin never changes the resource; its 304s are net/http's or hand-written ones carrying a Content-Length/Content-Type of their own); oracle: every answer is a 200 with the complete body, the resource's ETag and media type, and the origin's 0-5 Via lines followed by exactly one entry of the proxy's own, the origin is only ever asked conditionally after the first fetch; non-trivial = both hits and revalidations occurred; distinct by case",
 	func(c HitReval, o *ev.Obs) *ev.Failure {
 		site := origin.NewSite()
 		v := origin.Version{Ver: 1, Len: c.Len, ETag: `"hr-1"`}
@@ -41,6 +45,11 @@ var subHitReval = ev.Register("hit-vs-revalidate",
 			v.Raw304 = []origin.HV{{K: "Content-Length", V: "0"}}
 		case "typed":
 			v.Raw304 = []origin.HV{{K: "Content-Length", V: "7"}, {K: "Content-Type", V: "text/x-of-the-304"}}
+		}
+		var wantVia []string
+		for i := 0; i < c.ViaLines; i++ {
+			wantVia = append(wantVia, fmt.Sprintf("1.1 upstream-%d", i))
+			v.Headers = append(v.Headers, origin.HV{K: "Via", V: wantVia[i]}, origin.HV{K: "Cache-Status", V: fmt.Sprintf("upstream-%d; fwd=miss", i)})
 		}
 		site.Set("/h", "hr", v)
 		org := origin.New(site.Handler())
@@ -67,6 +76,8 @@ var subHitReval = ev.Register("hit-vs-revalidate",
 						fail = ev.Failf("hitreval.body-cut", "client %d get %d: status %d, declared length %s, body ended after %d of %d bytes: %v (X-Cache %q)", ci, g, resp.Status, resp.Header.Get("Content-Length"), len(resp.Body), len(want), resp.ReadErr, resp.Header.Get("X-Cache"))
 					case resp.Status != http.StatusOK || !bytes.Equal(resp.Body, want) || resp.Header.Get("ETag") != v.ETag || resp.Header.Get("Content-Type") != "application/octet-stream":
 						fail = ev.Failf("hitreval.wrong-answer", "client %d get %d: status %d, %d body bytes (want 200, %d), ETag %q, Content-Type %q, X-Cache %q", ci, g, resp.Status, len(resp.Body), len(want), resp.Header.Get("ETag"), resp.Header.Get("Content-Type"), resp.Header.Get("X-Cache"))
+					case !viaOK(resp.Header.Values("Via"), wantVia):
+						fail = ev.Failf("hitreval.upstream-via-changed", "client %d get %d: the origin's Via lines %q reached the client as %q (X-Cache %q)", ci, g, wantVia, resp.Header.Values("Via"), resp.Header.Get("X-Cache"))
 					case resp.Header.Get("X-Cache") == "HIT":
 						hits++
 					case resp.Header.Get("X-Cache") == "REVALIDATED":
@@ -90,6 +101,28 @@ var subHitReval = ev.Register("hit-vs-revalidate",
 		return fail
 	})
 
+// viaOK: the origin's Via entries come first, unchanged and in order; the proxy adds exactly one entry of its own.
+func viaOK(got, want []string) bool {
+	if len(want) == 0 {
+		return true
+	}
+	var flat []string
+	for _, g := range got {
+		for _, p := range strings.Split(g, ",") {
+			flat = append(flat, strings.TrimSpace(p))
+		}
+	}
+	if len(flat) != len(want)+1 {
+		return false
+	}
+	for i, w := range want {
+		if flat[i] != w {
+			return false
+		}
+	}
+	return true
+}
+
 func TestHitVsRevalidate(t *testing.T) {
 	n := ev.N(24, 600)
 	if ev.Race() && !ev.Thorough() {
@@ -104,6 +137,7 @@ func TestHitVsRevalidate(t *testing.T) {
 			LifetimeMs: rapid.SampledFrom([]int{1, 2, 5}).Draw(t, "lifetime"),
 			Len:        rapid.SampledFrom([]int{10, 3000, 70000}).Draw(t, "len"),
 			Raw304:     rapid.SampledFrom([]string{"", "len0", "typed"}).Draw(t, "raw304"),
+			ViaLines:   rapid.SampledFrom([]int{0, 1, 2, 3, 3, 5}).Draw(t, "via-lines"),
 		}
 	})
 }
